@@ -54,6 +54,7 @@ func (e *Engine) verifyFuncGroup(fn *ssa.Function, spec *FuncSpec, prop, group s
 	// fresh names restart for every function so that the queries of a function do not depend
 	// on which other functions are verified in the same run (reproducible solver behaviour)
 	e.nfresh = 1000000
+	e.ar.SideCond = nil
 	if spec.ArithSet {
 		e.ar.Mode = spec.Arith
 	} else {
@@ -304,6 +305,10 @@ func (x *Exec) checkPost(st *State, ret *ssa.Return, rs []Val) {
 	env := &Env{x: x, st: st, heap: st.heap, old: x.oldHeap, vars: vars, ovars: ov, pkg: x.specPkg(x.spec)}
 	for _, c := range x.spec.Ensures {
 		if !x.wantClause(c) || !x.active(c) || (c.group() == "" && !x.primary) {
+			continue
+		}
+		if c.trusted() {
+			x.e.assumptions["trusted clause (assumed, not proved) of "+x.qname+": "+c.Text] = true
 			continue
 		}
 		g := x.evalClause(st, env, c, x.spec)
